@@ -796,6 +796,11 @@ func (self *AofChannel) Push(dbId uint8, lock *Lock, commandType uint8, lockComm
 	} else {
 		aofLock.Count = unLockCommand.Count
 		aofLock.Rcount = unLockCommand.Rcount
+		if unLockCommand.TimeoutFlag&protocol.TIMEOUT_FLAG_RCOUNT_IS_PRIORITY != 0 {
+			// with this flag Rcount is a priority, not a depth: the unlock released every level
+			// of the hold, and the record must say so (replay reads Rcount > 0 as "one level")
+			aofLock.Rcount = 0
+		}
 	}
 	if lockCommand.TimeoutFlag&protocol.TIMEOUT_FLAG_REQUIRE_ACKED != 0 {
 		aofLock.AofFlag |= AOF_FLAG_REQUIRE_ACKED
